@@ -133,6 +133,7 @@ def cover(rep, name, c, wprog, rprog, invariants=("NoTorn", "Monotone"), timeout
         r = cb.TlcResult("", 0, 0.0)
         r.distinct, r.generated, r.depth, r.violated, r.ok = m["distinct"], m["generated"], m["depth"], m["violated"], m["violated"] is None
         rep.add_tlc(r, f"TLC cover {name} (cached)")
+        os.utime(bfile)
         return bfile, r, m["edges"], m["behaviours"]
     mod = seg_module("R_" + name, "SegReplay", wprog, rprog)
     cfg = seg_cfg("R_" + name, "RSpec", c, list(invariants), view="ViewNoSid", constraint="FewRetries")
@@ -161,6 +162,7 @@ def cover(rep, name, c, wprog, rprog, invariants=("NoTorn", "Monotone"), timeout
     json.dump({"distinct": r.distinct, "generated": r.generated, "depth": r.depth, "violated": r.violated,
                "edges": len(edges), "behaviours": len(behs)}, open(meta, "w"))
     rep.add_tlc(r, f"TLC cover {name}: {len(edges)} transitions printed, {len(behs)} maximal paths")
+    cb.prune_cache(cdir, name)
     return bfile, r, len(edges), len(behs)
 
 
